@@ -9,17 +9,6 @@ Import ListNotations.
 Local Open Scope N_scope.
 Ltac Zify.zify_post_hook ::= Z.div_mod_to_equations.
 
-Lemma parse_show_dec max n : n <= max -> parse_uint_str max (show_dec n) = Some n.
-Proof.
-  intros H. unfold parse_uint_str.
-  pose proof (show_dec_digits n) as D. pose proof (show_dec_nonempty n) as NE. pose proof (show_dec_value n) as V.
-  destruct (show_dec n) as [|c t] eqn:E; [congruence|].
-  assert (C : c <> 43). { cbn [all_digits] in D. apply andb_true_iff in D as [D _]. unfold is_digit in D. lia. }
-  assert (M : forall (A : Type) (x y : A), match c with 43 => x | _ => y end = y).
-  { intros A x y. destruct c as [|p]; [reflexivity|]. repeat (destruct p as [p|p|]; try reflexivity). congruence. }
-  rewrite M, D, V. destruct (n <=? max) eqn:E2; [reflexivity|lia].
-Qed.
-
 Definition word_tok (t : text) : tok := shape_tok true (TWord (map SChar t)).
 
 Lemma scan_ctr_ok ttl cl rt rest : ttl <= 4294967295 -> cl < 65536 -> rt < 65536 ->
